@@ -237,3 +237,89 @@ pub fn run_subsets(tier: &str, seed: u64, out: &mut Out) {
         }
     }
 }
+
+// ---------------------------------------------------------------- C04: render specification jobs
+
+fn val_sexp(v: &J) -> String {
+    use crate::ast::q;
+    match v {
+        J::Null => "n".into(),
+        J::Bool(b) => format!("(b {})", *b as u8),
+        J::Number(n) => {
+            if let Some(i) = n.as_i64() {
+                format!("(num {})", q(&i.to_string()))
+            } else if n.as_f64().map(|f| f.fract() == 0.0 && f.abs() < 9e15).unwrap_or(false) {
+                format!("(num {})", q(&(n.as_f64().unwrap() as i64).to_string()))
+            } else {
+                "nonint".into()
+            }
+        }
+        J::String(s) => format!("(s {})", q(s)),
+        J::Array(a) => format!("(arr {})", a.iter().map(val_sexp).collect::<Vec<_>>().join(" ")),
+        J::Object(o) => {
+            if o.contains_key("$u") {
+                "u".into()
+            } else if let Some(a) = o.get("$a") {
+                format!("(arr {})", a.as_array().unwrap().iter().map(val_sexp).collect::<Vec<_>>().join(" "))
+            } else if let Some(m) = o.get("$o") {
+                format!("(obj {})", m.as_object().unwrap().iter().map(|(k, v)| format!("({} {})", q(k), val_sexp(v))).collect::<Vec<_>>().join(" "))
+            } else if let Some(f) = o.get("$fn") {
+                format!("(fn {})", q(f.as_str().unwrap_or("")))
+            } else {
+                "nonint".into()
+            }
+        }
+    }
+}
+
+fn render_data(rng: &mut Rng) -> J {
+    let pool = vec![
+        json!(0), json!(1), json!(-3), json!(42), json!(""), json!("a"), json!("x y"), json!("汉\u{1f600}"), json!(null), json!({"$u": 1}),
+        json!(true), json!(false), json!({"$a": [1, "two", null]}), json!({"$a": []}),
+        json!({"$o": {"a": 1, "b": {"$o": {"x": "deep"}}, "x": 0}}), json!({"$o": {}}),
+        json!({"$a": [{"$o": {"a": 1, "x": "p", "b": {"$o": {"x": "bx"}}}}, {"$o": {"a": 0, "x": ""}}]}),
+    ];
+    let mut m = serde_json::Map::new();
+    for f in DATA_FIELDS {
+        let v = match f {
+            "l" if rng.chance(2, 3) => json!({"$a": [{"$o": {"a": 1, "x": "p", "b": {"$o": {"x": "bx"}}}}, {"$o": {"a": 0, "x": ""}}, "str", 7]}),
+            "o" if rng.chance(2, 3) => json!({"$o": {"a": 1, "b": {"$o": {"x": "deep"}}, "x": 0, "k": {"$a": [5, 6]}}}),
+            "s" if rng.chance(1, 2) => json!({"$o": {"k1": "v1", "k2": {"$o": {"a": "in"}}}}),
+            _ => rng.pick(&pool).clone(),
+        };
+        m.insert(f.to_string(), v);
+    }
+    json!({ "$o": m })
+}
+
+pub fn run_render(tier: &str, seed: u64, out: &mut Out) {
+    let mut rng = Rng::new(seed ^ 0x4e4d);
+    let n = if tier == "thorough" { 4000 } else { 600 };
+    for i in 0..n {
+        let cfg = TmplCfg {
+            max_depth: 1 + (i % 3),
+            expr_depth: i % 3,
+            allow_scripts: false,
+            simple_exprs: true,
+            ..Default::default()
+        };
+        let mut g = TmplGen::new(&mut rng, cfg);
+        let src = g.file();
+        let feats: Vec<&str> = g.features.keys().cloned().collect();
+        let mut tg = TmplGroup::new();
+        let diags = tg.add_tmpl("p", &src);
+        let max_level = diags.iter().map(|d| d.kind.level() as u8).max().unwrap_or(0);
+        let t = tg.get_tree("p").unwrap();
+        let s = crate::ast::Src::new(&src);
+        let dump = crate::ast::template(t, &s);
+        let bundle = tg.get_tmpl_gen_object_groups().unwrap_or_default();
+        let slot_values = json!({"$o": {"sv": "SV", "item": {"$o": {"a": 1, "b": {"$o": {"x": "sx"}}}}, "aB": {"$a": [1, 2]}}});
+        for _ in 0..2 {
+            let d = render_data(&mut rng);
+            let job = json!({"kind": "render", "id": i, "src": src, "max_level": max_level, "bundle": bundle, "features": feats,
+                             "data": d, "slotValues": slot_values,
+                             "model_cmd": format!("render\t{}\t{}\t{}", dump, val_sexp(&d), val_sexp(&slot_values))});
+            out.raw(&job.to_string());
+        }
+    }
+}
